@@ -3,7 +3,8 @@
    the report/cancel protocol of src/encode/mod.rs and src/encoder.rs), in exact rational arithmetic - the
    property itself excludes float rounding. *)
 From Coq Require Import QArith Permutation Sorting.Sorted.
-From DDSV Require Import base.Machine model.Progress proofs.ProgressProofs.
+From DDSV Require Import base.Machine model.Progress proofs.ProgressProofs model.EncChunks proofs.EncChunksProofs.
+From Coq Require Import List.
 
 (* worker reports under ANY interleaving: whatever order the fragments finish in (any permutation of the
    fragment heights - the mutex makes each submit atomic), the shared counter takes strictly increasing values
@@ -43,9 +44,20 @@ Proof. exact encoder_cancel_at_any_report. Qed.
 Theorem C17_precancelled_writes_nothing : forall t, run_trace (Check :: t) true None 0 0 = (Cancelled, 0%nat).
 Proof. exact precancelled_writes_nothing. Qed.
 
+(* the sequential encoders report chunk_index / chunk_count before each chunk: chunk_count is the real number of chunks
+   (model/EncChunks.v, tied to the code by tag 54), so every such report is below 100% - div_ceil(pixels, buffer) for the
+   whole-image chunking of for_each_chunk, rows * div_ceil(width, chunk pixels) for the per-row chunking of the
+   dithering and sub-sampled encoders *)
+Theorem C17_chunk_count_whole : forall (X : Type) (n : nat), (1 <= n)%nat -> forall rows : list (list X),
+  length (fec_contiguous X n rows) = ((length (concat rows) + n - 1) / n)%nat.
+Proof. exact chunk_count_whole. Qed.
+Theorem C17_chunk_count_rows : forall (X : Type) (n : nat), (1 <= n)%nat -> forall (rows : list (list X)) (w : nat),
+  Forall (fun r => length r = w) rows -> length (concat (map (EncChunks.chunks X n) rows)) = (length rows * ((w + n - 1) / n))%nat.
+Proof. exact chunk_count_rows. Qed.
+
 Example C17_ex : parallel_reports 10 [4; 2; 4]%N = [4 # 11; 6 # 11; 10 # 11].
 Proof. reflexivity. Qed.
 
 Definition C17_all := (C17_parallel_reports_any_order, C17_parallel_report_values, C17_project_in, C17_project_mono,
-  C17_level_ranges_tile, C17_level_reports_monotone, C17_cancel_at_any_report, C17_precancelled_writes_nothing).
+  C17_level_ranges_tile, C17_level_reports_monotone, C17_cancel_at_any_report, C17_precancelled_writes_nothing, C17_chunk_count_whole, C17_chunk_count_rows).
 Redirect "props/C17.assumptions" Print Assumptions C17_all.
